@@ -393,6 +393,10 @@ impl Scope {
         let mut flags = BindingFlags::MUTABLE;
         flags.set(BindingFlags::LEX, !function_scope);
         flags.set(BindingFlags::ESCAPES, self.is_global());
+        #[cfg(boa_verif)]
+        if verif::force_escapes() {
+            flags.insert(BindingFlags::ESCAPES);
+        }
         bindings.push(Binding {
             name: name.clone(),
             index: binding_index,
@@ -417,6 +421,10 @@ impl Scope {
         let mut flags = BindingFlags::LEX;
         flags.set(BindingFlags::STRICT, strict);
         flags.set(BindingFlags::ESCAPES, self.is_global());
+        #[cfg(boa_verif)]
+        if verif::force_escapes() {
+            flags.insert(BindingFlags::ESCAPES);
+        }
         bindings.push(Binding {
             name,
             index: binding_index,
@@ -841,5 +849,45 @@ impl<'a> arbitrary::Arbitrary<'a> for FunctionScopes {
             mapped_arguments_object: false,
             requires_function_scope: false,
         })
+    }
+}
+
+/// Verification hooks (only with `--cfg boa_verif`).
+#[cfg(boa_verif)]
+#[allow(missing_docs, clippy::must_use_candidate)]
+pub mod verif {
+    use std::cell::Cell;
+
+    thread_local!(static FORCE_ESCAPES: Cell<bool> = const { Cell::new(false) });
+
+    /// When set, every binding created afterwards is marked as escaping (kept in an environment).
+    impl super::Scope {
+        /// `unique_id index is_function this_escaped [name binding_index flag_bits]*`
+        pub fn verif_dump(&self) -> String {
+            let mut out = format!(
+                "{} {} {} {}",
+                self.inner.unique_id,
+                self.inner.index.get(),
+                u8::from(self.inner.function),
+                u8::from(self.inner.this_escaped.get())
+            );
+            for b in self.inner.bindings.borrow().iter() {
+                out.push_str(&format!(
+                    " [{} {} {}]",
+                    b.name.to_std_string_escaped(),
+                    b.index,
+                    b.flags.bits()
+                ));
+            }
+            out
+        }
+    }
+
+    pub fn set_force_escapes(on: bool) {
+        FORCE_ESCAPES.with(|c| c.set(on));
+    }
+
+    pub fn force_escapes() -> bool {
+        FORCE_ESCAPES.with(Cell::get)
     }
 }
